@@ -423,6 +423,54 @@ pub fn run(tier: Tier, seed: u64) -> i32 {
     }
     fams.push(json!({"family": "G:5x5 sample-entry kinds", "files": 25}));
 
+    // (H) real files: the independent decoder (refmp4::parse) reads the canned files' tables, evaluates the lookup
+    // semantics on them, and every sample is compared with what the library returns.  This binds the reference
+    // model to bytes produced by other muxers (ffmpeg), not only to its own encoder.
+    let mut real_samples = 0u64;
+    for name in ["minimal.mp4", "extended_audio_object_type.mp4", "big_buck_bunny_metadata.m4v"] {
+        let bytes = crate::e3::canned(name);
+        l.evaluations += 1;
+        let case = |extra: Value| json!({"engine": "canned", "file": name, "detail": extra});
+        let tops = match crate::refmp4::parse::top_level(&bytes, 0) {
+            Ok(t) => t,
+            Err(e) => machinery_failure(&format!("reference parser rejects canned file {}: {}", name, e)),
+        };
+        let moov = tops.iter().find(|t| &t.cc == b"moov").unwrap();
+        let tree = crate::refmp4::parse::tree(&bytes[moov.start as usize..(moov.start + moov.size) as usize], moov.start).unwrap_or_else(|e| machinery_failure(&format!("reference parser: {}: {}", name, e)));
+        let mut r = open(&bytes).unwrap_or_else(|e| machinery_failure(&format!("canned file {} does not open: {}", name, e)));
+        l.validated += 1;
+        for trak in tree[0].kids_named(b"trak") {
+            let id = crate::refmp4::parse::tkhd(&trak.kid(b"tkhd").unwrap().payload).unwrap().1;
+            let tb = crate::refmp4::parse::tables(trak.path(&[b"mdia", b"minf", b"stbl"]).unwrap()).unwrap_or_else(|e| machinery_failure(&format!("reference tables of {}: {}", name, e)));
+            let exp = crate::refmp4::parse::locate_all(&tb).unwrap_or_else(|e| machinery_failure(&format!("reference lookup of {}: {}", name, e)));
+            if guard(|| r.sample_count(id).ok()) != Ok(Some(exp.len() as u32)) {
+                l.violations.push(Violation::new("C03", "sample_count", case(json!({"track": id}))).exp(json!(exp.len())));
+                continue;
+            }
+            for (k, e) in exp.iter().enumerate() {
+                l.transitions += 2;
+                real_samples += 1;
+                let off = guard(|| r.sample_offset(id, k as u32 + 1).ok());
+                let got = read_one(&mut r, id, k as u32 + 1);
+                let want_bytes = &bytes[e.0 as usize..(e.0 + e.1 as u64) as usize];
+                let ok = off == Ok(Some(e.0)) && matches!(&got, Got::Some(g) if g.bytes == want_bytes && g.start == e.2 && g.dur == e.3 && g.off == e.4 && g.sync == e.5);
+                if !ok {
+                    l.violations.push(Violation::new("C03", "canned_file_sample_differs_from_reference_lookup", case(json!({"track": id, "sample": k + 1}))).obs(json!({"offset": format!("{:?}", off), "got": got.to_json()})).exp(json!({"offset": e.0, "size": e.1, "start": e.2, "dur": e.3, "cts": e.4, "sync": e.5})));
+                    break;
+                }
+            }
+            let n = exp.len() as u32;
+            for probe in [0u32, n + 1, u32::MAX] {
+                if let Got::Some(_) = read_one(&mut r, id, probe) {
+                    l.violations.push(Violation::new("C03", "id_outside_range_yields_sample", case(json!({"track": id, "sample": probe}))));
+                }
+            }
+        }
+        l.nontrivial += 1;
+        l.outcome("ok:H:canned_file_vs_reference_decoder");
+    }
+    fams.push(json!({"family": "H:canned files (ffmpeg-produced): reference decoder's tables + lookup semantics vs the library, every sample", "files": 3, "samples_compared": real_samples}));
+
     ev.set("evaluations", json!(l.evaluations));
     ev.set("states", json!(l.evaluations));
     ev.set("transitions", json!(l.transitions));
